@@ -38,6 +38,7 @@ var baselineSigsTxt string
 
 // baselineSigs: full name -> signature (with receiver) of the functions of the pinned tree; used to
 // recognise an anchor function that was merely renamed.
+//
 //go:embed baseline_callers.txt
 var baselineCallersTxt string
 
@@ -283,7 +284,8 @@ func normalise(repo string, pkgs []*packages.Package) (*normResult, []*packages.
 	res := &normResult{Overlay: map[string][]byte{}, Dead: map[string]bool{}}
 	skip := map[string]bool{}
 	cbase := baselineClosures()
-	if len(newHelpers(pkgs, base, skip)) == 0 && len(newClosureVars(pkgs, cbase, skip)) == 0 && len(newIIFEs(pkgs, cbase, skip)) == 0 && len(newEachLoops(pkgs, cbase, skip)) == 0 {
+	btypes := baselineTypes()
+	if len(sroaCandidates(pkgs, btypes, skip)) == 0 && len(newHelpers(pkgs, base, skip)) == 0 && len(newClosureVars(pkgs, cbase, skip)) == 0 && len(newIIFEs(pkgs, cbase, skip)) == 0 && len(newEachLoops(pkgs, cbase, skip)) == 0 {
 		return res, pkgs, nil
 	}
 	var roundKeys []string
@@ -299,6 +301,37 @@ func normalise(repo string, pkgs []*packages.Package) (*normResult, []*packages.
 		var err error
 		pkgs, err = loadPkgs(repo, res.Overlay)
 		return err
+	}
+	trySROA := func() (bool, error) {
+		for _, sv := range sroaCandidates(pkgs, btypes, skip) {
+			name := sv.pkg.Fset.Position(sv.file.Pos()).Filename
+			content, err := fileContent(res.Overlay, name)
+			if err != nil {
+				return false, err
+			}
+			out, what, err := sroaStep(sv, content)
+			if err != nil {
+				skip["sroa:"+declFullName(sv)+":"+sv.obj.Name()] = true
+				res.Log = append(res.Log, fmt.Sprintf("state struct %s left alone: %v", sv.obj.Name(), err))
+				continue
+			}
+			snapshot = map[string][]byte{}
+			for k, v := range res.Overlay {
+				snapshot[k] = v
+			}
+			res.Overlay[name] = out
+			res.Log = append(res.Log, what)
+			roundKeys = []string{"sroa:" + declFullName(sv) + ":" + sv.obj.Name()}
+			var lerr error
+			pkgs, lerr = loadPkgs(repo, res.Overlay)
+			if lerr != nil {
+				if err2 := rollback(lerr); err2 != nil {
+					return false, fmt.Errorf("after taking a state struct apart: %v", err2)
+				}
+			}
+			return true, nil
+		}
+		return false, nil
 	}
 	for round := 0; round < 150; round++ {
 		roundKeys = nil
@@ -418,6 +451,15 @@ func normalise(repo string, pkgs []*packages.Package) (*normResult, []*packages.
 		}
 		helpers := newHelpers(pkgs, base, skip)
 		if len(helpers) == 0 {
+			// nothing left to inline: local state structs of new types that are now used only through their fields
+			// are taken apart (one per round; the program is re-checked after each)
+			stepped, err := trySROA()
+			if err != nil {
+				return nil, nil, err
+			}
+			if stepped {
+				continue
+			}
 			break
 		}
 		// for statements calling a new helper in their init / post clause are written out
@@ -526,6 +568,13 @@ func normalise(repo string, pkgs []*packages.Package) (*normResult, []*packages.
 			}
 		}
 		if len(cands) == 0 {
+			stepped, err := trySROA()
+			if err != nil {
+				return nil, nil, err
+			}
+			if stepped {
+				continue
+			}
 			break
 		}
 		// innermost candidates per file, bottom-most first
@@ -669,6 +718,13 @@ func normalise(repo string, pkgs []*packages.Package) (*normResult, []*packages.
 			}
 		}
 		if !progressed {
+			stepped, err := trySROA()
+			if err != nil {
+				return nil, nil, err
+			}
+			if stepped {
+				continue
+			}
 			break
 		}
 		var err error
@@ -764,4 +820,11 @@ func isPureBasicPredicate(info *types.Info, decl *ast.FuncDecl) bool {
 		return pure
 	})
 	return pure
+}
+
+func declFullName(sv sroaVar) string {
+	if fn, ok := sv.pkg.TypesInfo.Defs[sv.encl.Name].(*types.Func); ok {
+		return fn.FullName()
+	}
+	return sv.encl.Name.Name
 }
